@@ -309,6 +309,22 @@ declarations:
 - decl: double accumulate_weighted_sum(const double *input_value_array +rank(1), int number_of_values +implied(size(input_value_array)), double scaling_factor_one, double scaling_factor_two, const std::string &description_of_the_run)
 - decl: void update_coordinates_in_place(double *coordinate_array_x +rank(1)+intent(inout), double *coordinate_array_y +rank(1)+intent(inout), int number_of_points +implied(size(coordinate_array_x)), bool periodic_boundary_flag)
 - decl: const std::string &lookup_name_of_component(int component_index_value, const std::string &fallback_component_name)
+- decl: class Flux
+  declarations:
+  - decl: Flux()
+  - decl: void accumulate_flux(int cell_index_value)
+    format:
+      function_suffix: _from_cell_index_only
+  - decl: void accumulate_flux(int cell_index_value, double weight_of_cell)
+    format:
+      function_suffix: _from_cell_index_and_weight
+  - decl: void accumulate_flux(double position_x, double position_y)
+    format:
+      function_suffix: _from_position_in_plane
+  - decl: void accumulate_flux(const std::string &name_of_region)
+    format:
+      function_suffix: _from_name_of_region
+  - decl: double total_flux_through_boundary(int boundary_index = 1, double scaling_factor_for_units = 1.0, bool include_ghost_cells = false)
 """
 
 
